@@ -92,11 +92,19 @@ where
         }
         sfrontier = next;
     }
+    // quick tier, types with more than 24 units: second steps go to a fixed subset of the units (the start unit, the
+    // reference unit, the neighbour, the smallest and the largest) instead of all of them - n^3 would dominate the run
+    let wide = thorough() || n <= 24;
+    let r0 = b.tm.ref_index().unwrap_or(0);
+    let narrow = move |from: usize, j: usize| -> bool { wide || j == iu || j == r0 || j == (from + 1) % n || j == 0 || j == n - 1 };
     for level in 0..depth {
         let mut next: Vec<(usize, A)> = Vec::new();
         for &(i, a) in &frontier {
             rep.inc("states");
             for j in 0..n {
+                if level > 0 && !narrow(i, j) {
+                    continue;
+                }
                 if let Some(ra) = transition::<Q>(&b, i, j, a, level, rep) {
                     if level + 1 < depth && amt::is_finite(ra) && visited.insert((j, amt::key(ra))) {
                         next.push((j, ra));
@@ -117,7 +125,7 @@ where
             let Ok(q1) = guard(|| Q::new(a, b.units[i]).convert(b.units[j])) else { continue };
             let Some(spec1) = conv_spec_in_domain(&ar, b.um(i), b.um(j)) else { continue };
             for w in 0..n {
-                if w == j {
+                if w == j || !narrow(j, w) {
                     continue;
                 }
                 let Ok(q2) = guard(|| q1.convert(b.units[w])) else { continue };
